@@ -7,7 +7,7 @@
 (* field's default overridden in the subclass) and over every assignment   *)
 (* absent / explicit value / explicit null to the keys.                    *)
 (***************************************************************************)
-EXTENDS Gen, Json
+EXTENDS Gen, Json, SequencesExt
 
 CONSTANT MaxLen
 VARIABLES T, v, kind
@@ -80,6 +80,30 @@ SelfInputs == { Dct(<< <<S("next"), SubDoc(<< <<S("x"), I(7)>>, <<S("o"), None>>
                 Dct(<<>>) }
 Good(f) == IF FType(f) = IntL THEN L(<<I(8), I(9)>>) ELSE I(40)
 
+\* ---- aliased layouts: every field carries an alias from one of the three sources, with and without
+\* allow_deserialization_not_by_alias.  The key that counts is the alias (or, if allowed and the alias key is ABSENT, the name):
+\* an explicit null under the alias key is a present key -- it wins over the default and over the name key
+AliasFields(ks, src) == [i \in DOMAIN ks |-> LET f == FieldOf(ks[i], i) IN
+                            IF src = "cfg" THEN f ELSE <<f[1], f[2], f[3], f[4] \o << <<src, "a_" \o f[1]>> >> >>]
+Aliased(ks, src, allow) ==
+  <<"dc", "K", AliasFields(ks, src),
+    << <<"allow_deserialization_not_by_alias", allow>> >>
+    \o (IF src = "cfg" THEN << <<"aliases", [i \in DOMAIN ks |-> <<FN(i), "a_" \o FN(i)>>]>> >> ELSE <<>>) >>
+AliasedClasses == { Aliased(ks, src, allow) : ks \in { l \in Layouts : Len(l) <= 2 }, src \in {"alias", "aalias", "cfg"}, allow \in BOOLEAN }
+\* per field: 0 absent, 1 value under the name, 2 null under the name, 3 value under the alias, 4 null under the alias,
+\* 5 null under the alias AND a value under the name
+AliasInputs(C) == { Dct(LET fs == DcFields(C)
+                            one(i) == LET n == S(FName(fs[i])) a == S("a_" \o FName(fs[i])) g == Good(fs[i]) IN
+                                      CASE ch[i] = 0 -> <<>>
+                                        [] ch[i] = 1 -> << <<n, g>> >>
+                                        [] ch[i] = 2 -> << <<n, None>> >>
+                                        [] ch[i] = 3 -> << <<a, g>> >>
+                                        [] ch[i] = 4 -> << <<a, None>> >>
+                                        [] ch[i] = 5 -> << <<n, g>>, <<a, None>> >>
+                        IN FoldLeft(LAMBDA acc, i : acc \o one(i), <<>>, [i \in DOMAIN fs |-> i]))
+                    : ch \in [DOMAIN DcFields(C) -> 0..5] }
+IsAliased(C) == HasOpt(DcCfg(C), "allow_deserialization_not_by_alias")
+
 \* per field: 0 absent, 1 explicit value, 2 explicit null
 Inputs(C) == { Dct(LET fs == DcFields(C)
                        idx == SelectSeq([i \in DOMAIN fs |-> i], LAMBDA i : ch[i] # 0) IN
@@ -87,21 +111,30 @@ Inputs(C) == { Dct(LET fs == DcFields(C)
                : ch \in [DOMAIN DcFields(C) -> 0..2] }
 \* classes with non-field members also meet every input with the keys "cv" and "iv" present
 WithExtras(j) == Dct(j[2] \o << <<S("cv"), I(77)>>, <<S("iv"), I(78)>> >>)
-AllInputs(C) == IF HasOpt(DcCfg(C), "extras") THEN Inputs(C) \cup { WithExtras(j) : j \in Inputs(C) } ELSE Inputs(C)
+AllInputs(C) == IF IsAliased(C) THEN AliasInputs(C)
+                ELSE IF HasOpt(DcCfg(C), "extras") THEN Inputs(C) \cup { WithExtras(j) : j \in Inputs(C) } ELSE Inputs(C)
 
 ValidSplit(C) == \A o \in Range(DcCfg(C)) : o[1] = "bases" => Len(o[2][1][3]) < Len(DcFields(C)) \/ HasOpt(DcCfg(C), "redeclared")
 
 Init == T = <<"start">> /\ v = <<"nov">> /\ kind = "start"
-Next == \/ kind = "start" /\ T' \in { C \in Classes : ValidSplit(C) } /\ v' = v /\ kind' = "type"
+Next == \/ kind = "start" /\ T' \in { C \in Classes : ValidSplit(C) } \cup AliasedClasses /\ v' = v /\ kind' = "type"
         \/ kind = "type" /\ T' = T /\ v' \in AllInputs(T) /\ kind' = "input"
         \/ kind = "start" /\ T' \in SelfFams /\ v' \in SelfInputs /\ kind' = "selfinput"
 
 Dec == Unpack(T, DefaultCx, v)
 
 \* ---- the property on the model
+\* the key that counts for field f (stated independently of Unpack's FieldKey): the alias if the class gives one and that key is
+\* present (with any value, null included); else the name if the field has no alias or reading by name is allowed
+KeyThatCounts(f) ==
+  LET a == S("a_" \o FName(f)) n == S(FName(f)) IN
+  IF ~IsAliased(T) THEN n
+  ELSE IF PairsHas(v[2], a) THEN a
+  ELSE IF GetOpt(DcCfg(T), "allow_deserialization_not_by_alias", FALSE) THEN n
+  ELSE a
 DefaultIffAbsent ==
   (kind = "input" /\ IsOk(Dec)) =>
-    \A i \in DOMAIN DcFields(T) : LET f == DcFields(T)[i] k == S(FName(f)) x == Dec[2][3][i] IN
+    \A i \in DOMAIN DcFields(T) : LET f == DcFields(T)[i] k == KeyThatCounts(f) x == Dec[2][3][i] IN
       IF ~FInit(f) THEN x = DefaultOf(f)                                   \* never read from the input
       ELSE IF ~PairsHas(v[2], k) THEN x = DefaultOf(f)                      \* absent => default
       ELSE IF IsNone(PairsGet(v[2], k)) THEN IsNone(x)                      \* explicit null wins
